@@ -42,7 +42,7 @@ def chk(pid, text, note, tech):
 extra = os.path.join(V, "tools", "manifest_extra.json")
 if os.path.exists(extra):
     for k, v in json.load(open(extra)).items():
-        T[k] = tuple(v) if v else None
+        T[k] = tuple(x.replace("__PURE__", TB_PURE).replace("__SOLVER__", TB_SOLVER) for x in v) if v else None
 props = [json.loads(l)["id"] for l in open(os.path.join(V, "properties.jsonl"))]
 checks = [chk(p, *T[p]) for p in props if T.get(p)]
 claimed = {c["property_id"] for c in checks}
